@@ -7,7 +7,7 @@
    gossiped); aspen/internal/node/group.go (WhereActive / WhereState(Healthy)).
 
    Processes ("procs") are integers: an initial member's proc id is its node key (1..N), a joining
-   node ("pledge") has a proc id > 100 and holds key[p] = 0 until it joined. Views are sets of node
+   node ("pledge") has a proc id > 100 and holds nodeKey[p] = 0 until it joined. Views are sets of node
    KEYS; a request addressed to key k is executed by the proc holding k.
 
    Action                      code
@@ -63,7 +63,9 @@ CONSTANTS
   MaxKey,          \* bound on proposed keys (state constraint KeyBound)
   Gossip,          \* BOOLEAN: Learn enabled
   Joins,           \* BOOLEAN: admitted nodes start arbitrating (Join)
-  Faults,          \* BOOLEAN: DeliverLost / Fail / Timeout / DeliverLate enabled
+  Faults,          \* subset of {"lost", "fail", "timeout", "late"}: fault actions enabled. {"timeout", "late"}
+                   \* already covers the others up to garbage in net: lost = timeout then late, fail =
+                   \* timeout and never late
   InitView,        \* [InitMember -> SUBSET keys]   views may be stale / different
   InitUnhealthy,   \* [InitMember -> SUBSET keys]   keys the member's view holds as not healthy
   InitApprovals,   \* [InitMember -> SUBSET keys]   approvals left by earlier joins
@@ -78,7 +80,7 @@ NoResp == [via |-> 0, st |-> "idle", key |-> 0, round |-> 0, snap |-> {}, quorum
 NotAdmitted == [key |-> 0, ck |-> "none", quorum |-> {}, snap |-> {}, via |-> 0]
 
 VARIABLES
-  key,        \* [Proc -> Nat]  node key held by an arbitrating proc, 0 = not arbitrating
+  nodeKey,    \* [Proc -> Nat]  node key held by an arbitrating proc, 0 = not arbitrating
   view,       \* [Proc -> SUBSET Nat]  keys the proc's Candidates() returns (all active)
   unhealthy,  \* [Proc -> SUBSET Nat]  those of them whose State is not Healthy
   approvals,  \* [Proc -> SUBSET Nat]  juror.approvals
@@ -86,10 +88,10 @@ VARIABLES
   net,        \* set of juror requests in flight [p, r, to, k]
   attempts,   \* [Pledge -> Nat]       peers contacted so far
   admitted    \* [Pledge -> record]    what propose returned to the pledge
-vars == <<key, view, unhealthy, approvals, resp, net, attempts, admitted>>
+vars == <<nodeKey, view, unhealthy, approvals, resp, net, attempts, admitted>>
 
 Init ==
-  /\ key = [x \in Proc |-> IF x \in InitMember THEN x ELSE 0]
+  /\ nodeKey = [x \in Proc |-> IF x \in InitMember THEN x ELSE 0]
   /\ view = [x \in Proc |-> IF x \in InitMember THEN InitView[x] ELSE {}]
   /\ unhealthy = [x \in Proc |-> IF x \in InitMember THEN InitUnhealthy[x] ELSE {}]
   /\ approvals = [x \in Proc |-> IF x \in InitMember THEN InitApprovals[x] ELSE {}]
@@ -98,7 +100,7 @@ Init ==
   /\ attempts = [p \in Pledge |-> 0]
   /\ admitted = [p \in Pledge |-> NotAdmitted]
 
-Holders(k) == {x \in Proc : key[x] = k /\ k # 0}
+Holders(k) == {x \in Proc : nodeKey[x] = k /\ k # 0}
 Msg(p, j) == [p |-> p, r |-> resp[p].round, to |-> j, k |-> resp[p].key]
 Pending(p) == resp[p].quorum \ (resp[p].ok \cup resp[p].bad)
 \* juror.verdict: nil iff not approved before and above every key the juror knows
@@ -109,10 +111,10 @@ Reachable(m) == Cardinality(Healthy(m)) >= QSize(view[m])
 
 Start(p, m) ==
   /\ resp[p].st = "idle" /\ admitted[p].key = 0 /\ attempts[p] < MaxAttempts
-  /\ m \in AllowedVia[p] /\ key[m] # 0 /\ m # p
+  /\ m \in AllowedVia[p] /\ nodeKey[m] # 0 /\ m # p
   /\ resp' = [resp EXCEPT ![p] = [NoResp EXCEPT !.via = m, !.st = "propose"]]
   /\ attempts' = [attempts EXCEPT ![p] = @ + 1]
-  /\ UNCHANGED <<key, view, unhealthy, approvals, net, admitted>>
+  /\ UNCHANGED <<nodeKey, view, unhealthy, approvals, net, admitted>>
 
 Propose(p, q) ==
   LET m == resp[p].via IN
@@ -122,13 +124,13 @@ Propose(p, q) ==
   /\ resp' = [resp EXCEPT ![p] = [@ EXCEPT !.key = NextKey(p), !.round = @ + 1, !.snap = view[m],
                                             !.quorum = q, !.ok = {}, !.bad = {}, !.st = "wait"]]
   /\ net' = net \cup {[p |-> p, r |-> resp[p].round + 1, to |-> j, k |-> NextKey(p)] : j \in q}
-  /\ UNCHANGED <<key, view, unhealthy, approvals, attempts, admitted>>
+  /\ UNCHANGED <<nodeKey, view, unhealthy, approvals, attempts, admitted>>
 
 GiveUp(p) ==
   /\ resp[p].st = "propose"
   /\ resp[p].round >= MaxProposals \/ ~Reachable(resp[p].via)
   /\ resp' = [resp EXCEPT ![p] = NoResp]
-  /\ UNCHANGED <<key, view, unhealthy, approvals, net, attempts, admitted>>
+  /\ UNCHANGED <<nodeKey, view, unhealthy, approvals, net, attempts, admitted>>
 
 \* the juror side of a request: approvals gains the key on every path that reaches the append
 Executed(x, k) == approvals' = [approvals EXCEPT ![x] = @ \cup {k}]
@@ -141,41 +143,41 @@ Deliver(p, j) ==
                   THEN [resp EXCEPT ![p].ok = @ \cup {j}]
                   ELSE [resp EXCEPT ![p].bad = @ \cup {j}]
   /\ net' = net \ {Msg(p, j)}
-  /\ UNCHANGED <<key, view, unhealthy, attempts, admitted>>
+  /\ UNCHANGED <<nodeKey, view, unhealthy, attempts, admitted>>
 
 DeliverLost(p, j) ==
-  /\ Faults
+  /\ "lost" \in Faults
   /\ resp[p].st = "wait" /\ j \in Pending(p) /\ Msg(p, j) \in net
   /\ \E x \in Holders(j) : Executed(x, resp[p].key)
   /\ resp' = [resp EXCEPT ![p].bad = @ \cup {j}]
   /\ net' = net \ {Msg(p, j)}
-  /\ UNCHANGED <<key, view, unhealthy, attempts, admitted>>
+  /\ UNCHANGED <<nodeKey, view, unhealthy, attempts, admitted>>
 
 Fail(p, j) ==
-  /\ Faults
+  /\ "fail" \in Faults
   /\ resp[p].st = "wait" /\ j \in Pending(p) /\ Msg(p, j) \in net
   /\ resp' = [resp EXCEPT ![p].bad = @ \cup {j}]
   /\ net' = net \ {Msg(p, j)}
-  /\ UNCHANGED <<key, view, unhealthy, approvals, attempts, admitted>>
+  /\ UNCHANGED <<nodeKey, view, unhealthy, approvals, attempts, admitted>>
 
 Timeout(p, j) ==
-  /\ Faults
+  /\ "timeout" \in Faults
   /\ resp[p].st = "wait" /\ j \in Pending(p) /\ Msg(p, j) \in net
   /\ resp' = [resp EXCEPT ![p].bad = @ \cup {j}]
-  /\ UNCHANGED <<key, view, unhealthy, approvals, net, attempts, admitted>>
+  /\ UNCHANGED <<nodeKey, view, unhealthy, approvals, net, attempts, admitted>>
 
 IsLate(msg) == ~(resp[msg.p].st = "wait" /\ resp[msg.p].round = msg.r /\ msg.to \in Pending(msg.p))
 DeliverLate(msg) ==
-  /\ Faults
+  /\ "late" \in Faults
   /\ msg \in net /\ IsLate(msg)
   /\ \E x \in Holders(msg.to) : Executed(x, msg.k)
   /\ net' = net \ {msg}
-  /\ UNCHANGED <<key, view, unhealthy, resp, attempts, admitted>>
+  /\ UNCHANGED <<nodeKey, view, unhealthy, resp, attempts, admitted>>
 
 Retry(p) ==
   /\ resp[p].st = "wait" /\ Pending(p) = {} /\ resp[p].bad # {}
   /\ resp' = [resp EXCEPT ![p].st = "propose"]
-  /\ UNCHANGED <<key, view, unhealthy, approvals, net, attempts, admitted>>
+  /\ UNCHANGED <<nodeKey, view, unhealthy, approvals, net, attempts, admitted>>
 
 Admit(p) ==
   /\ resp[p].st = "wait" /\ Pending(p) = {} /\ resp[p].bad = {}
@@ -183,20 +185,20 @@ Admit(p) ==
                                           quorum |-> resp[p].quorum, snap |-> resp[p].snap,
                                           via |-> resp[p].via]]
   /\ resp' = [resp EXCEPT ![p].st = "done"]
-  /\ UNCHANGED <<key, view, unhealthy, approvals, net, attempts>>
+  /\ UNCHANGED <<nodeKey, view, unhealthy, approvals, net, attempts>>
 
 Join(p) ==
   /\ Joins
-  /\ admitted[p].key # 0 /\ key[p] = 0
-  /\ key' = [key EXCEPT ![p] = admitted[p].key]
+  /\ admitted[p].key # 0 /\ nodeKey[p] = 0
+  /\ nodeKey' = [nodeKey EXCEPT ![p] = admitted[p].key]
   /\ view' = [view EXCEPT ![p] = {admitted[p].key}]
   /\ UNCHANGED <<unhealthy, approvals, resp, net, attempts, admitted>>
 
 Learn(m, k) ==
   /\ Gossip
-  /\ key[m] # 0 /\ k \notin view[m] /\ Holders(k) # {}
+  /\ nodeKey[m] # 0 /\ k \notin view[m] /\ Holders(k) # {}
   /\ view' = [view EXCEPT ![m] = @ \cup {k}]
-  /\ UNCHANGED <<key, unhealthy, approvals, resp, net, attempts, admitted>>
+  /\ UNCHANGED <<nodeKey, unhealthy, approvals, resp, net, attempts, admitted>>
 
 Next ==
   \/ \E p \in Pledge :
@@ -212,7 +214,7 @@ KeyBound == \A p \in Pledge : resp[p].key <= MaxKey
 
 ------------------------------------------------------------------------------
 \* the key a proc holds in the cluster: members their own, pledges the one they were given
-HeldKey(x) == IF x \in Pledge THEN admitted[x].key ELSE key[x]
+HeldKey(x) == IF x \in Pledge THEN admitted[x].key ELSE nodeKey[x]
 \* no two nodes with the same key (two admitted pledges, or a pledge and an existing member)
 UniqueKeys == \A x, y \in Proc : (x # y /\ HeldKey(x) # 0) => HeldKey(x) # HeldKey(y)
 \* a key is given only after EVERY member of a majority quorum of the members known to the
